@@ -4,6 +4,7 @@ import (
 	"encoding/json"
 	"flag"
 	"fmt"
+	"go/ast"
 	"go/constant"
 	"go/token"
 	"go/types"
@@ -63,6 +64,7 @@ func main() {
 			fmt.Println(err)
 			os.Exit(2)
 		}
+		installAccessorResolver(p)
 		dumpEmissions(p, *dump)
 		return
 	}
@@ -106,6 +108,7 @@ func main() {
 		os.Exit(c.finishMaybe(start, onlyKey, cmdline, *noEvidence))
 	}
 	c.P = p
+	installAccessorResolver(p)
 	func() {
 		defer func() {
 			if r := recover(); r != nil {
@@ -119,4 +122,52 @@ func main() {
 
 func (c *Ctx) finishMaybe(start time.Time, onlyKey, cmdline string, noEvidence bool) int {
 	return c.finish(start, onlyKey, cmdline, !noEvidence)
+}
+
+func installAccessorResolver(p *Program) {
+	evals := map[*types.Info]*strEval{}
+	stringResolver = func(info *types.Info, call *ast.CallExpr) (string, bool) {
+		fn := calleeOf(info, call)
+		if fn == nil || p.FuncOfObj(fn) == nil {
+			return "", false
+		}
+		if bt, ok := info.TypeOf(call).Underlying().(*types.Basic); !ok || bt.Info()&types.IsString == 0 {
+			return "", false
+		}
+		se := evals[info]
+		if se == nil {
+			for _, pk := range p.All {
+				if pk.TypesInfo == info {
+					se = newStrEval(p, pk)
+				}
+			}
+			if se == nil {
+				return "", false
+			}
+			evals[info] = se
+		}
+		vals, ok := se.eval(call, nil)
+		if !ok || len(vals) != 1 || strings.Contains(vals[0], "%") {
+			return "", false
+		}
+		return vals[0], true
+	}
+	accessorResolver = func(info *types.Info, call *ast.CallExpr) string {
+		fn := calleeOf(info, call)
+		if fn == nil {
+			return ""
+		}
+		fi := p.FuncOfObj(fn)
+		if fi == nil || fi.Decl.Body == nil || len(fi.Decl.Body.List) != 1 || fi.Decl.Recv == nil {
+			return ""
+		}
+		rs, ok := fi.Decl.Body.List[0].(*ast.ReturnStmt)
+		if !ok || len(rs.Results) != 1 {
+			return ""
+		}
+		if bt, ok := fi.Pkg.TypesInfo.TypeOf(rs.Results[0]).Underlying().(*types.Basic); !ok || bt.Info()&types.IsBoolean == 0 {
+			return ""
+		}
+		return canonExpr(fi.Pkg.TypesInfo, rs.Results[0])
+	}
 }
